@@ -460,7 +460,10 @@ def real_reconcile(case, policy, hashseed, to_stdout):
         with open(os.path.join(scratch, "in.json"), "w") as handle:
             json.dump(doc, handle)
         extra, _ = cost_args(case)
-        argv = [sys.executable, "-m", "superrec2.cli", "reconcile", "--input", "in.json"]
+        from . import kernel as _kernel
+
+        argv = [sys.executable] + (["-O"] if _kernel.PYOPT else [])
+        argv += ["-m", "superrec2.cli", "reconcile", "--input", "in.json"]
         if not to_stdout:
             argv += ["--output", "out.json"]
         argv += [case["algo"], "--solutions", policy] + extra
